@@ -71,6 +71,8 @@ STATEMENT_STATUS: Dict[str, str] = {
     "r56_user_accepts / r56_owner_accepts / r56_authenticate_owner / r56_authenticate_user_same_pw": "proved",
     "r56_authenticate_user_partial": "partial: exactly one assumption left - up != op -> H(up, ov, U) != H(op, ov, U) "
                                      "(the owner validation hash of this document does not collide between its two passwords)",
+    "r6_password_is_algorithm_2B": "proved: _r6_password (while condition, repeat count translated from the source on every "
+                                   "run; _bytes_mod_3 = big-endian integer mod 3) = ISO 32000-2 Algorithm 2.B for 8-byte salts",
     "r6_fuel_suffices": "proved unconditionally (the loop of _r6_password ends by round 288)",
     "C10_roundtrip_bytes / C10_roundtrip": "proved for RC4/AESV2/AESV3/Identity, whole objects, every objid/genno/IV, padding "
                                            "removed; encryptBytes_ne_nil removes the former non-emptiness hypothesis",
